@@ -1238,3 +1238,103 @@ def _dense_rank(ctx, fi: FuncInfo, set_call: ast.Call) -> tuple[bool, str]:
     if not (isinstance(inner, ast.Call) and isinstance(inner.func, ast.Name) and inner.func.id in ("set", "frozenset") and inner.args):
         return False, f"rank table is built over `{short(inner)}`: duplicates make class ids non-dense"
     return True, f"rank over sorted(set({short(inner.args[0], 40)}))"
+
+
+# --------------------------------------------------------------------------- R-FAILSITES
+
+
+@rule("R-FAILSITES")
+def r_failsites(ctx) -> RuleResult:
+    """canonicalisation and serialisation contain no statement that can reject a molecule: no raise, no size limit,
+    no lowered recursion limit; the one assertion present is discharged by the traversal's own loop condition"""
+    res = RuleResult("R-FAILSITES", "canonicalize_molecule / serialize_molecule contain no raise, no size guard and no assertion other than the label-count check that the traversal loop discharges; the parser raises only its own exception")
+    fis = closure(ctx, "canonicalize", "serialize")
+    n = 0
+    for fi in fis:
+        fn = fi.node
+        for x in own_walk(fn):
+            if isinstance(x, ast.Raise):
+                n += 1
+                res.inst(fi.fq, short(x), "fail")
+                res.fail(Finding("R-FAILSITES", fi.module.rel, fi.qualname, norm(x), "the identifier pipeline can reject a molecule with an exception", line=x.lineno))
+            elif isinstance(x, ast.Assert):
+                n += 1
+                ok, why = _assert_discharged(ctx, fi, x)
+                res.inst(fi.fq, short(x), "ok" if ok else "fail", detail=why)
+                if not ok:
+                    res.fail(Finding("R-FAILSITES", fi.module.rel, fi.qualname, norm(x), f"assertion may fail for some molecule: {why}", line=x.lineno))
+            elif isinstance(x, ast.Call):
+                r = ctx.repo.resolve_dotted(fi.module, x.func)
+                if r and r[0] == "ext" and r[1] in ("sys.setrecursionlimit", "sys.exit", "os._exit", "signal.alarm", "resource.setrlimit"):
+                    n += 1
+                    res.inst(fi.fq, short(x), "fail")
+                    res.fail(Finding("R-FAILSITES", fi.module.rel, fi.qualname, norm(x), f"`{r[1]}` inside the pipeline limits the molecules it can process", line=x.lineno))
+            elif isinstance(x, (ast.If, ast.While)) and _is_size_guard(x.test):
+                n += 1
+                res.inst(fi.fq, short(x.test), "fail")
+                res.fail(Finding("R-FAILSITES", fi.module.rel, fi.qualname, norm(x.test), "behaviour depends on a size threshold of the molecule: large inputs take a different path", line=x.lineno))
+        res.inst(fi.fq, "no rejecting construct", "ok") if not any(i["function"] == fi.fq for i in res.instances) else None
+    res.counts = {"functions": len(fis), "sites": n}
+    res.notes.append("index / key errors inside the pipeline are not decided here (enumerated only through R-BIJ, R-KEYS, R-ATTRREAD)")
+    return res
+
+
+def _is_size_guard(test: ast.expr) -> bool:
+    """comparison of a node/edge count (or len of the graph) with a constant >= 16"""
+    for c in ast.walk(test):
+        if isinstance(c, ast.Compare) and len(c.ops) == 1 and isinstance(c.ops[0], (ast.Gt, ast.GtE, ast.Lt, ast.LtE)):
+            sides = [c.left, c.comparators[0]]
+            consts = [s for s in sides if isinstance(s, ast.Constant) and isinstance(s.value, int) and s.value >= 16]
+            sizes = [s for s in sides if isinstance(s, ast.Call) and ((isinstance(s.func, ast.Attribute) and s.func.attr in ("number_of_nodes", "number_of_edges", "order", "size"))
+                                                                     or (isinstance(s.func, ast.Name) and s.func.id == "len"))]
+            if consts and sizes:
+                return True
+    return False
+
+
+def _assert_discharged(ctx, fi: FuncInfo, a: ast.Assert) -> tuple[bool, str]:
+    """`assert len(M) == len(G.nodes)` after `while unexplored := sorted([k for k, v in G.nodes(data=EXPLORED) if not v])`:
+    the loop only exits when every node is explored, and every explored node was given an entry of M"""
+    t = a.test
+    if not (isinstance(t, ast.Compare) and len(t.ops) == 1 and isinstance(t.ops[0], ast.Eq)):
+        return False, "not an equality of two sizes"
+    sides = [norm(t.left), norm(t.comparators[0])]
+    m = [s for s in sides if s.startswith("len(") and not s.endswith(".nodes)")]
+    if not m:
+        return False, "not the label-count check"
+    mapping = m[0][4:-1]
+    fn = fi.node
+    cfg = cfg_of(fn)
+    explored = ctx.repo.try_const("tucan.graph_attributes", "EXPLORED")
+    loops = [w for w in own_walk(fn) if isinstance(w, ast.While) and isinstance(w.test, ast.NamedExpr)]
+    for w in loops:
+        comp = w.test.value
+        while isinstance(comp, ast.Call) and isinstance(comp.func, ast.Name) and comp.func.id in ("sorted", "list") and comp.args:
+            comp = comp.args[0]
+        if not (isinstance(comp, ast.ListComp) and len(comp.generators) == 1 and len(comp.generators[0].ifs) == 1):
+            continue
+        it = comp.generators[0].iter
+        cond = comp.generators[0].ifs[0]
+        d = kwarg(it, "data") if isinstance(it, ast.Call) else None
+        if d is None or try_const(ctx, fi, d) != explored:
+            continue
+        if not (isinstance(cond, ast.UnaryOp) and isinstance(cond.op, ast.Not)):
+            continue
+        # inside the loop: a store M[x] = .. together with marking x explored, both in the same block
+        stores = [s for s in ast.walk(w) if isinstance(s, ast.Assign) and isinstance(s.targets[0], ast.Subscript) and norm(s.targets[0].value) == mapping]
+        marks = [s for s in ast.walk(w) if isinstance(s, ast.Assign) and isinstance(s.targets[0], ast.Subscript) and try_const(ctx, fi, s.targets[0].slice) == explored
+                 and isinstance(s.value, ast.Constant) and s.value.value is True]
+        if not stores or not marks:
+            continue
+        sn, mn = cfg.node_of(stores[0]), cfg.node_of(marks[0])
+        key_s = norm(stores[0].targets[0].slice)
+        key_m = norm(marks[0].targets[0].value.slice) if isinstance(marks[0].targets[0].value, ast.Subscript) else None
+        if sn is None or mn is None or key_s != key_m:
+            continue
+        if not (cfg.dominates(sn, mn) or cfg.dominates(mn, sn)):
+            continue
+        wn = cfg.node_of(w)
+        an = cfg.node_of(a)
+        if wn is not None and an is not None and cfg.dominates(wn, an):
+            return True, "the traversal loop exits only when no node is unexplored, and a node is marked explored together with receiving its label"
+    return False, "no loop shows that every node has received a label before this point"
